@@ -45,8 +45,17 @@ where
         if r = 0 then .error (.stepFault 999) else
         let q := k / r
         let rem := k % r
-        .ok ((outs.zipIdx.filterMap (fun (o, j) =>
-          let cnt := q + (if j < rem then 1 else 0)
+        let even : List Nat := (List.range r).map (fun j => q + (if j < rem then 1 else 0))
+        -- an explicit split of the shots over the outcomes (`counts`), used when it is a split of exactly `k` shots
+        let explicit : Option (List Nat) := match lookupParam req.params "counts" with
+          | some (.tup cs) => cs.mapM (fun v => match v with
+              | .int i => if i ≥ 0 then some i.toNat else none
+              | _ => none)
+          | _ => none
+        let cnts : List Nat := match explicit with
+          | some cs => if cs.length = r ∧ cs.sum = k then cs else even
+          | none => even
+        .ok (((outs.zip cnts).filterMap (fun (o, cnt) =>
           if cnt = 0 then none
           else some { state := st', outcome := outcomeOf o, freq := mkRat cnt k })))
       | none =>
